@@ -209,4 +209,102 @@ theorem dispose_releases_all_run {σ ι β} (m : Machine σ ι β) (init : St σ
   · rw [run_append, emits_append, r.2.2.1, List.append_nil]
   · rw [run_append, run_cons, subsOf_append, subsOf_append, (r.2.2.2 htick).1, r.1]; simp
 
+/-- the statement of `terminal_releases_all` for one machine, over every event list from its start state -/
+def TerminalReleases {σ ι β} (m : Machine σ ι β) (init : St σ) : Prop :=
+  ∀ (es : List (Ev ι)) (e : Ev ι), (emits (step m (final m init es) e).2).any Notif.isTerminal = true →
+    (step m (final m init es) e).1.p.live = [] ∧
+    ∀ k, (k ∈ (final m init es).p.live ∨ Eff.sub k ∈ (step m (final m init es) e).2) →
+      Eff.unsub k ∈ (step m (final m init es) e).2
+
+/-- the statement of `dispose_releases_all` for one machine: a dispose anywhere in any event list closes the live
+subscriptions in container order; afterwards nothing is live, emitted or subscribed -/
+def DisposeReleases {σ ι β} (m : Machine σ ι β) (init : St σ) : Prop :=
+  ∀ (pre post : List (Ev ι)),
+    (step m (final m init pre) .dispose).2 = (final m init pre).p.live.map Eff.unsub ∧
+    (final m init (pre ++ .dispose :: post)).p.live = [] ∧
+    emits (run m init (pre ++ .dispose :: post)) = emits (run m init pre) ∧
+    subsOf (run m init (pre ++ .dispose :: post)) = subsOf (run m init pre)
+
+/-! ### per-machine instances (every event list from the subscription state) -/
+
+theorem startAll_WF {σ} (s : σ) (n : Nat) : (startAll s n).p.WF := by intro h; simp [startAll] at h
+theorem seqTick_done {α} (kind : SeqKind) (items : Nat → Item) (s : SeqSt) : (seqTick (α := α) kind items s true).2 = [] := by
+  simp only [seqTick]; split <;> simp
+
+section
+variable {α : Type}
+
+/-! `seq` = concat / catch / on_error_resume_next and every derived form (`items` arbitrary: repeat(n), retry(n), while_do,
+for_in, …); the `subsOf` clause of its dispose theorem is the cancellation of the pending scheduled action. -/
+
+theorem terminal_releases_all_zip (n : Nat) : TerminalReleases (zipM (α := α) n) (zipInit n) :=
+  fun es e => terminal_releases_all_run (zipM (α := α) n) (zipInit n) (startAll_WF _ n) es e
+theorem dispose_releases_all_zip (n : Nat) : DisposeReleases (zipM (α := α) n) (zipInit n) :=
+  fun pre post => dispose_releases_all_run (zipM (α := α) n) (zipInit n) (startAll_WF _ n) (fun _ => rfl) pre post
+
+theorem terminal_releases_all_combine_latest (n : Nat) : TerminalReleases (clM (α := α) n) (clInit n) :=
+  fun es e => terminal_releases_all_run (clM (α := α) n) (clInit n) (startAll_WF _ n) es e
+theorem dispose_releases_all_combine_latest (n : Nat) : DisposeReleases (clM (α := α) n) (clInit n) :=
+  fun pre post => dispose_releases_all_run (clM (α := α) n) (clInit n) (startAll_WF _ n) (fun _ => rfl) pre post
+
+theorem terminal_releases_all_with_latest_from (m : Nat) : TerminalReleases (wlfM (α := α) m) (wlfInit m) :=
+  fun es e => terminal_releases_all_run (wlfM (α := α) m) (wlfInit m) (wlfInit_WF m) es e
+theorem dispose_releases_all_with_latest_from (m : Nat) : DisposeReleases (wlfM (α := α) m) (wlfInit m) :=
+  fun pre post => dispose_releases_all_run (wlfM (α := α) m) (wlfInit m) (wlfInit_WF m) (fun _ => rfl) pre post
+
+theorem terminal_releases_all_fork_join (n : Nat) : TerminalReleases (fjM (α := α) n) (fjInit n) :=
+  fun es e => terminal_releases_all_run (fjM (α := α) n) (fjInit n) (startAll_WF _ n) es e
+theorem dispose_releases_all_fork_join (n : Nat) : DisposeReleases (fjM (α := α) n) (fjInit n) :=
+  fun pre post => dispose_releases_all_run (fjM (α := α) n) (fjInit n) (startAll_WF _ n) (fun _ => rfl) pre post
+
+theorem terminal_releases_all_amb (n : Nat) : TerminalReleases (ambM (α := α) n) (ambInit n) :=
+  fun es e => terminal_releases_all_run (ambM (α := α) n) (ambInit n) (amb_init_inv n).wf es e
+theorem dispose_releases_all_amb (n : Nat) : DisposeReleases (ambM (α := α) n) (ambInit n) :=
+  fun pre post => dispose_releases_all_run (ambM (α := α) n) (ambInit n) (amb_init_inv n).wf (fun _ => rfl) pre post
+
+theorem terminal_releases_all_amb2 : TerminalReleases (ambM (α := α) 2) amb2Init :=
+  fun es e => terminal_releases_all_run (ambM (α := α) 2) amb2Init amb2_init_inv.wf es e
+theorem dispose_releases_all_amb2 : DisposeReleases (ambM (α := α) 2) amb2Init :=
+  fun pre post => dispose_releases_all_run (ambM (α := α) 2) amb2Init amb2_init_inv.wf (fun _ => rfl) pre post
+
+theorem terminal_releases_all_merge_all : TerminalReleases (maM (α := α)) (hoInit {}) :=
+  fun es e => terminal_releases_all_run (maM (α := α)) (hoInit {}) (hoInit_WF _) es e
+theorem dispose_releases_all_merge_all : DisposeReleases (maM (α := α)) (hoInit {}) :=
+  fun pre post => dispose_releases_all_run (maM (α := α)) (hoInit {}) (hoInit_WF _) (fun _ => rfl) pre post
+
+theorem terminal_releases_all_merge_maxc (maxc : Nat) : TerminalReleases (mcM (α := α) maxc) (hoInit {}) :=
+  fun es e => terminal_releases_all_run (mcM (α := α) maxc) (hoInit {}) (hoInit_WF _) es e
+theorem dispose_releases_all_merge_maxc (maxc : Nat) : DisposeReleases (mcM (α := α) maxc) (hoInit {}) :=
+  fun pre post => dispose_releases_all_run (mcM (α := α) maxc) (hoInit {}) (hoInit_WF _) (fun _ => rfl) pre post
+
+theorem terminal_releases_all_switch : TerminalReleases (swM (α := α)) (hoInit {}) :=
+  fun es e => terminal_releases_all_run (swM (α := α)) (hoInit {}) (hoInit_WF _) es e
+theorem dispose_releases_all_switch : DisposeReleases (swM (α := α)) (hoInit {}) :=
+  fun pre post => dispose_releases_all_run (swM (α := α)) (hoInit {}) (hoInit_WF _) (fun _ => rfl) pre post
+
+theorem terminal_releases_all_seq (kind : SeqKind) (items : Nat → Item) : TerminalReleases (seqM (α := α) kind items) seqInit :=
+  fun es e => terminal_releases_all_run (seqM (α := α) kind items) seqInit seq_init_inv.wf es e
+theorem dispose_releases_all_seq (kind : SeqKind) (items : Nat → Item) : DisposeReleases (seqM (α := α) kind items) seqInit :=
+  fun pre post => dispose_releases_all_run (seqM (α := α) kind items) seqInit seq_init_inv.wf (seqTick_done kind items) pre post
+
+theorem terminal_releases_all_seq_inline (kind : SeqKind) (items : Nat → Item) : TerminalReleases (seqInlineM (α := α) kind items) seqInit :=
+  fun es e => terminal_releases_all_run (seqInlineM (α := α) kind items) seqInit seq_init_inv.wf es e
+theorem dispose_releases_all_seq_inline (kind : SeqKind) (items : Nat → Item) : DisposeReleases (seqInlineM (α := α) kind items) seqInit :=
+  fun pre post => dispose_releases_all_run (seqInlineM (α := α) kind items) seqInit seq_init_inv.wf (seqTick_done kind items) pre post
+
+theorem terminal_releases_all_catch_handler (res : Except Err Unit) : TerminalReleases (chM (α := α) res) chInit :=
+  fun es e => terminal_releases_all_run (chM (α := α) res) chInit ch_init_inv.wf es e
+theorem dispose_releases_all_catch_handler (res : Except Err Unit) : DisposeReleases (chM (α := α) res) chInit :=
+  fun pre post => dispose_releases_all_run (chM (α := α) res) chInit ch_init_inv.wf (fun _ => rfl) pre post
+
+end
+
+/-- non-vacuity: zip of 3, source 1 errors: the error goes out and 0, 1, 2 are closed in container order in that step -/
+example : (step (zipM (α := Nat) 3) (zipInit 3) (.src 1 (.error "e"))).2
+    = [.emit (.error "e"), .unsub 0, .unsub 1, .unsub 2] := by decide
+/-- non-vacuity: merge(max_concurrent=1) with a queued inner, disposed: outer and the live inner closed, the queued one never starts -/
+example : run (mcM (α := Nat) 1) (hoInit {})
+    [.src 0 (.next (.obs 0)), .src 0 (.next (.obs 1)), .dispose, .src 1 .completed, .src 0 .completed]
+    = [.sub 1, .unsub 0, .unsub 1] := by decide
+
 end C02Comb
